@@ -4,6 +4,14 @@ import json, subprocess
 BASE_OFF = "cd /repo && go build ./... && go test -vet=off -count=1 -timeout 25m ./..."
 claims = {
  # id: (level, text, note, technique, design_ref)
+ "C01": ("proof",
+         "No-panic obligations (nil dereference, index, slice bounds, explicit panic unreachable, type assertion, nil map) and loop/recursion variants for every function under contract, generated from go/ssa and discharged by SMT for all inputs; scanner stack discipline (Pop never on empty) is an inductive invariant over all 160 state functions.",
+         "Functions outside the contract set and the schema library are not covered; termination only where a decreases clause exists; see evidence.assumptions and unverified_functions.",
+         "contract-based deductive verification: safety VCs from go/ssa discharged by z3/cvc5", "DESIGN.md 4.C01"),
+ "C14": ("proof",
+         "Scanner invariant (stack, event queue, ghost lexeme typestate) proved inductive over all state functions and Scanner.Next; emitted lexemes have begin <= end+1, end inside the input, events paired; keyword lexemes spell a directive word (spell tables checked per transition); schema/enum body length is the library's (assumed) length.",
+         "Assumes the schema library's Len()/Position() bounds (deps.spec); ghost-state definitions of found/foundAt; strict ordering across lexemes is proved at emission (typestate of found/foundAt), not re-proved for the FIFO queue.",
+         "contract-based deductive verification: inductive invariant of the scanner state machine as function-type contract, VCs from go/ssa discharged by z3/cvc5", "DESIGN.md 4.C14"),
  "C02": ("proof",
          "Contracts on jerr (line/quote arithmetic, location construction, include-trace append) discharged for all inputs by SMT; wrap-around machine arithmetic modelled.",
          "Trusted: go/ssa translation, govc VC generator, SMT solvers; assumed contracts listed in evidence.assumptions.",
